@@ -12,9 +12,12 @@ import (
 	"math"
 	"strings"
 
+	"grol.io/grol/ast"
 	"grol.io/grol/eval"
 	"grol.io/grol/extensions"
+	"grol.io/grol/lexer"
 	"grol.io/grol/object"
+	"grol.io/grol/parser"
 	"verifharness/common"
 	. "verifharness/common"
 )
@@ -48,6 +51,23 @@ func evalObj(code string) object.Object {
 }
 
 func fromSrc(code string) uval { return mk(evalObj(code), evalObj(code), code) }
+
+func mkMacro(code string) object.Object {
+	p := parser.New(lexer.New("m=" + code))
+	prog := p.ParseProgram()
+	if len(p.Errors()) != 0 || len(prog.Statements) != 1 {
+		return nil
+	}
+	as, ok := prog.Statements[0].(*ast.InfixExpression)
+	if !ok {
+		return nil
+	}
+	ml, ok := as.Right.(*ast.MacroLiteral)
+	if !ok {
+		return nil
+	}
+	return &object.Macro{Parameters: ml.Parameters, Body: ml.Body}
+}
 
 func ival(v int64) uval {
 	src := fmt.Sprintf("%d", v)
@@ -118,10 +138,12 @@ func curated() []uval {
 		bm, _ = bm.Delete(object.Integer{Value: i})
 	}
 	u = append(u, mk(bm, evalObj("{1:1,2:2}"), ""))
-	// macro object (a bare macro literal evaluates to the macro)
-	if m, err := eval.EvalString(state, "macro(x){x}", false); err == nil && m.Type() == object.MACRO {
-		m2, _ := eval.EvalString(state, "macro(x){x}", false)
-		u = append(u, mk(m, m2, ""))
+	// macro objects: a program cannot hold one as a value (they live in the macro environment), the Go API can
+	for _, code := range []string{"macro(x){x}", "macro(x,y){quote(unquote(x)+unquote(y))}"} {
+		m1, m2 := mkMacro(code), mkMacro(code)
+		if m1 != nil {
+			u = append(u, mk(m1, m2, ""))
+		}
 	}
 	// API-only kinds
 	for _, s := range []string{"x", "y"} {
